@@ -52,7 +52,7 @@ StepOut(h) == IF h.op = "call"
                     log |-> h.log, out |-> h.out]
               ELSE [op |-> "finish", via |-> h.via, v |-> h.v]
 \* per configured returns(v): id, whether it is single-use, how often it was delivered
-ValSegs == { <<o, g>> \in AllPats(tab) \X (1..4) : g <= Len(tab[o[1]].pats[o[2]].chain) /\ tab[o[1]].pats[o[2]].chain[g].k = "val" }
+ValSegs == { <<o, g>> \in AllPats(tab) \X (1..6) : g <= Len(tab[o[1]].pats[o[2]].chain) /\ tab[o[1]].pats[o[2]].chain[g].k = "val" }
 ValReport == { [id |-> ValId(tab[x[1][1]].pats[x[1][2]], x[2]),
                 owned |-> RetOwned[x[1][1]],
                 single |-> RetOwned[x[1][1]] /\ SingleUse(tab[x[1][1]].pats[x[1][2]].form, x[2], tab[x[1][1]].pats[x[1][2]].chain[x[2]]),
@@ -126,6 +126,13 @@ C02LeavesT == C02Leaves({"r1"}, Forms, Chains1(KindsT, 0..3) \cup Chains2(KindsQ
               \cup C02Leaves({"d1"}, {"each", "next"}, Chains1({"val", "dflt", "unmock", "answer_arc"}, {0, 2}))
               \cup C02Leaves({"r0"}, {"each", "next"}, Chains3({"val", "answer"}, {0, 1, 2}))
               \cup C02Leaves({"t0", "b0"}, Forms, Chains1({"val", "answer"}, 0..2) \cup Chains2({"val", "answer", "panic"}, {0, 2}))
+\* chains of four and five segments (the responder search has inner boundaries only from the third segment on):
+\* every call that is the first of an inner segment, the last of one, and the calls beyond the end
+ChainsLong == { <<V(q1[1], q1[2]), V(q2[1], q2[2]), V(q3[1], q3[2]), V(q4[1], q4[2])>> :
+                  q1 \in {<<"once", 0>>, <<"n", 2>>}, q2 \in {<<"once", 0>>, <<"n", 2>>}, q3 \in {<<"once", 0>>, <<"n", 2>>}, q4 \in {<<"none", 0>>, <<"n", 1>>} }
+              \cup { <<V("n", 1), V("n", 1), V("n", 1), V("n", 1), V(q[1], q[2])>> : q \in {<<"none", 0>>, <<"atleast", 1>>} }
+              \cup { <<V("n", 1), V("n", 0), V("n", 2), V("n", 1), V("none", 0)>>, <<V("n", 2), V("n", 1), V("n", 0), V("n", 0), V("n", 1)>> }
+C02LeavesLong == C02Leaves({"r1"}, Forms, ChainsLong)
 
 \* ---------------- C03: verdict iff unmet ----------------
 C03Chains == { <<V("none", 0)>>, <<V("once", 0)>>, <<V("n", 0)>>, <<V("n", 2)>>, <<V("atleast", 1)>>, <<V("atleast", 2)>>,
